@@ -336,4 +336,12 @@ def plant(rng, v, leaf):
         d[k] = plant(rng, v[k], leaf)
         return d
     r = rng.random()
-    return [1, leaf] if r < 0.3 else (leaf, None) if r < 0.6 else {"k": leaf} if r < 0.8 else leaf
+    try:
+        hash(leaf)
+        hashable = True
+    except TypeError:
+        hashable = False
+    if hashable and r < 0.25:
+        # as a dict KEY, a member of a tuple key, or a set / frozenset element (every position a hashable value can take)
+        return rng.choice([{leaf: 1}, {"a": 0, leaf: [1]}, {(1, leaf): None}, {leaf}, frozenset([leaf, 2]), [{leaf: {leaf: 0}}]])
+    return [1, leaf] if r < 0.45 else (leaf, None) if r < 0.7 else {"k": leaf} if r < 0.85 else leaf
